@@ -78,7 +78,11 @@ func (o Option) DesignateNode(key ...string) Option {
 // e.g.
 // DesignateNodeWithPath({"sub graph node key", "node key within sub graph"})
 func (o Option) DesignateNodeWithPath(path ...*NodePath) Option {
-	o.paths = append(o.paths, path...)
+	// Option is passed by value but shares the backing array of paths: copy, so that options derived from the
+	// same base option do not overwrite each other's designations
+	paths := make([]*NodePath, 0, len(o.paths)+len(path))
+	paths = append(paths, o.paths...)
+	o.paths = append(paths, path...)
 	return o
 }
 
